@@ -86,6 +86,10 @@ type getSSEConnection struct {
 	// Prevent concurrent write conflicts
 	writeLock sync.Mutex
 
+	// closed is set (under writeLock) when the handler that owns writer is about to return;
+	// writing to the ResponseWriter after that is invalid.
+	closed bool
+
 	// Event ID generator, reuses existing sseResponder
 	sseResponder *sseResponder
 }
@@ -648,6 +652,12 @@ func (h *httpServerHandler) handleGet(ctx context.Context, w http.ResponseWriter
 		delete(h.getSSEConnections, session.GetID())
 	}
 	h.getSSEConnectionsLock.Unlock()
+
+	// A sender may have looked this connection up before it was removed: wait for a write in
+	// progress and make later writers fail instead of writing to a finished response.
+	conn.writeLock.Lock()
+	conn.closed = true
+	conn.writeLock.Unlock()
 	verifYield("get:exited", r)
 	h.logger.Infof("GET SSE connection closed, session ID: %s", session.GetID())
 }
@@ -665,6 +675,9 @@ func (h *httpServerHandler) sendNotificationToGetSSE(sessionID string, notificat
 
 	conn.writeLock.Lock()
 	defer conn.writeLock.Unlock()
+	if conn.closed {
+		return fmt.Errorf("%w: %s", ErrSessionNotFound, sessionID)
+	}
 
 	// Use SSE responder to send notification
 	eventID, err := conn.sseResponder.sendNotification(conn.writer, notification)
@@ -773,6 +786,10 @@ func (h *httpServerHandler) SendRequest(ctx context.Context, sessionID string, r
 
 	// Send the request through GET SSE using the proper sendRequest method.
 	conn.writeLock.Lock()
+	if conn.closed {
+		conn.writeLock.Unlock()
+		return nil, fmt.Errorf("no GET SSE connection found for session: %s", sessionID)
+	}
 	eventID, err := conn.sseResponder.sendRequest(conn.writer, request)
 	if err != nil {
 		conn.writeLock.Unlock()
